@@ -1274,6 +1274,7 @@ fn run_regen() -> String {
 // ---------------------------------------------------------------------------------------------
 // generation of cases
 
+const MANUAL_ODD_PACKAGES: [&str; 5] = [".helloworld", ".my.protos", "a.", "a..b", ".."];
 const PACKAGES: [&str; 9] = ["", "a", "a.b", "grpc.health.v1", "A", "a.S", "my_pkg.v1", "x1.y2.z3", "pkg"];
 const SVC_NAMES: [&str; 10] = ["Greeter", "S", "s", "Health", "My_Service", "S1", "greeter", "ServerReflection", "X", "Svc"];
 // (rust fn, proto ident)
@@ -1406,6 +1407,8 @@ pub fn generate(tier: &str, rng: &mut Rng) -> Vec<String> {
     out.push("gen 1 0 0 1 both 1 crate::pb helloworld Greeter Greeter 2 say_hello SayHello 0 0 E:HelloRequest E:HelloReply watch Watch 0 1 E:Empty F:super::HelloReply".into());
     out.push("gen 1 0 0 1 both 0 super - Greeter Greeter 0".into());
     out.push("manual 1 both helloworld Greeter 1 say_hello SayHello 0 0 crate::HelloRequest super::HelloResponse".into());
+    out.push("manual 1 both .helloworld Greeter 1 say_hello SayHello 0 0 crate::HelloRequest super::HelloResponse".into());
+    out.push("manual 1 both .my.protos Greeter 2 m M 0 1 crate::A crate::B n N 1 0 crate::A crate::B".into());
     out.push("manual 1 both - Greeter 4 m M 0 0 crate::A crate::B mx Mx 0 1 crate::A crate::B check Check 1 0 crate::B crate::A watch Watch 1 1 crate::B crate::B".into());
 
     // ---- structured, exhaustive small scope: every package shape × emit × the 4 kinds × sides
@@ -1481,7 +1484,12 @@ pub fn generate(tier: &str, rng: &mut Rng) -> Vec<String> {
                 let ident = if rng.chance(1, 2) { name } else { *rng.pick(&SVC_NAMES) };
                 out.push(gen_line(rng, &GenOpts { emit, arc, stubs, transport, sides, wkt, ppath }, pkg, name, ident, &ms))
             }
-            2 => out.push(manual_line(rng, transport, sides, pkg, name, &ms)),
+            2 => {
+                // `manual::Service::package` takes any text: also spellings prost never produces
+                // (a fully-qualified leading dot, a trailing dot, an empty segment - seed C11j)
+                let pkg = if rng.chance(1, 3) { *rng.pick(&MANUAL_ODD_PACKAGES) } else { pkg };
+                out.push(manual_line(rng, transport, sides, pkg, name, &ms))
+            }
             _ => {
                 let kinds = pick_kinds(rng, ms.len());
                 out.push(prost_line(&ProstOpts { emit, arc, stubs, sides, wkt, ppath, ext }, pkg, name, &ms, &kinds))
